@@ -166,6 +166,11 @@ func scenarios(o *h.Opts, rnd *h.Rand) []*scen {
 		e.Do("missing", "getendpoints", &ua.GetEndpointsRequest{EndpointURL: "x"}, "")
 		e.Do("valid", "read", srvx.ReadReq(srvx.TestVar(), ua.AttributeIDValue), "")
 		e.Do("valid", "write 77", srvx.WriteValueReq(srvx.TestVar(), 77), "")
+		e.Do("missing", "publish", srvx.PublishReq(), "")
+		e.Do("unknown", "publish", srvx.PublishReq(), "")
+		e.Do("valid2", "publish", srvx.PublishReq(), "")
+		e.Do("closed", "activate 0 1", srvx.ActivateSessionReq(nil, ""), "")
+		e.Do("unknown", "close", &ua.CloseSessionRequest{}, "")
 		for _, n := range srvx.StubNames() {
 			e.Do("valid", "other "+n, srvx.StubRequest(n), "")
 		}
@@ -356,16 +361,8 @@ func scenarios(o *h.Opts, rnd *h.Rand) []*scen {
 	})
 
 	// ---- channel level
-	chunkLens := []int{16, 31}
-	if o.Thorough() {
-		chunkLens = []int{16, 17, 24, 31}
-	}
-	for _, n := range chunkLens {
-		n := n
-		add(fmt.Sprintf("short-signed-chunk-%d", n), srvx.ChildSpec{}, func(s *scen, e *srvx.Episode) { s.signedChunk(e, n) })
-	}
-	add("signed-chunks-harmless", srvx.ChildSpec{}, func(s *scen, e *srvx.Episode) {
-		for _, n := range []int{12, 32, 40, 100} {
+	add("signed-chunks", srvx.ChildSpec{}, func(s *scen, e *srvx.Episode) {
+		for _, n := range []int{12, 16, 17, 24, 31, 32, 40, 100} {
 			s.signedChunk(e, n)
 		}
 	})
@@ -640,9 +637,9 @@ func main() {
 		go func(s *scen) {
 			defer wg.Done()
 			defer func() { <-sem }()
-			defer s.ep.Finish()
 			t0 := time.Now()
 			defer func() { s.took = time.Since(t0) }()
+			defer s.ep.Finish()
 			if !s.ep.Setup() {
 				return
 			}
@@ -680,7 +677,7 @@ func main() {
 		"deletemonitoreditems-unknown-id", "deletemonitoreditems-nil-session", "browse-datatype-type-assertion"} {
 		want = append(want, "crash:C29."+sg)
 	}
-	want = append(want, "canary-ok", "out:ok", "out:fault", "extra:hang:blocked", "extra:signedchunk:crash", "extra:signedchunk:noresponse", "extra:browsecls:plain")
+	want = append(want, "canary-ok", "out:ok", "out:fault", "extra:hang:blocked", "extra:signedchunk:noresponse", "extra:browsecls:plain")
 	sort.Strings(want)
 	for _, b := range want {
 		if r.Distribution[b] == 0 && o.Replay == "" {
